@@ -10,6 +10,7 @@ import (
 	"fmt"
 	"os"
 	"os/exec"
+	"regexp"
 	"strconv"
 	"strings"
 	"time"
@@ -27,6 +28,11 @@ type batchSpec struct {
 	KeepFull int      `json:"keep_full"`
 	WorkDir  string   `json:"workdir"`
 	Tag      string   `json:"tag"`
+	// Known findings (oracle + regex over the message): such violations are recorded but do not stop the batch.
+	Known []struct {
+		Oracle string `json:"oracle"`
+		Match  string `json:"match"`
+	} `json:"known"`
 }
 
 func runBatch(path string) {
@@ -91,8 +97,24 @@ func runBatch(path string) {
 					d["n_choices"] = len(n)
 				}
 				bad := d["violation"] != nil || (d["harness_error"] != nil && d["harness_error"] != "")
+				if v, ok := d["violation"].(map[string]interface{}); ok && (d["harness_error"] == nil || d["harness_error"] == "") {
+					for _, k := range spec.Known {
+						if re, err := regexp.Compile(k.Match); err == nil && v["oracle"] == k.Oracle {
+							if msg, _ := v["msg"].(string); re.MatchString(msg) {
+								bad = false // still reported (with full detail) to the driver, which prints KNOWN-FINDING
+								delete(d, "label_idx")
+								delete(d, "labels")
+							}
+						}
+					}
+				}
 				if bad {
 					stop = true
+				} else if d["violation"] != nil {
+					// known finding: keep the record small but keep the violation
+					delete(d, "choices")
+					delete(d, "log_head")
+					delete(d, "log_tail")
 				} else if full >= spec.KeepFull {
 					delete(d, "choices")
 					delete(d, "label_idx")
